@@ -16,6 +16,28 @@ BYTE_FNS = ["byte_parser::ByteParser::<'a, T>::new", "byte_parser::ByteParser::<
             "byte_parser::ByteParser::<'a, T>::select_other_charset"]
 
 
+def coroutine_scope(prog):
+    """the parser coroutine and the private helpers of the parser module it calls (transitively):
+    what they do counts as done by the state machine"""
+    out = {CLOSURE}
+    work = [CLOSURE]
+    while work:
+        f = work.pop()
+        b = prog.bodies.get(f)
+        if b is None:
+            continue
+        for c in prog.closures_of.get(f, []):
+            if c not in out:
+                out.add(c)
+                work.append(c)
+        for bi, t in prog.calls(b):
+            kind, callee = prog.resolve_callee(t['func'].get('fn'), bind_listener=False)
+            if kind == 'local' and callee not in out and callee.startswith('parser::') and 'ParserListener' not in callee:
+                out.add(callee)
+                work.append(callee)
+    return out
+
+
 class Ctx:
     def __init__(self, tier='quick'):
         self.tier = tier
@@ -157,8 +179,10 @@ class Ctx:
                 psegments.append(dict(func=fr.func, head=bi, st=st_))
             return None
 
+        cscope = coroutine_scope(prog)
+
         def event_hook(c, ev):
-            if ev[0] == 'vec.push' and c.fr is not None and c.fr.func == CLOSURE:
+            if ev[0] == 'vec.push' and c.fr is not None and c.fr.func in cscope:
                 v = ev[2]
                 cty = c.t['args'][0]['place']['ty'] if c.t['args'][0]['k'] in ('copy', 'move') else ''
                 if 'Vec<u32>' not in cty:
